@@ -308,7 +308,7 @@ def check(ctx):
                     f"set (ZeroDivisionError in the solver); documented {want_tr.key()}")
     # n_train is the row count of the reporting frame of this call
     nt = [w for w in util.attr_writes(repo, "n_train")]
-    okn = bool(nt) and all(isinstance(v, ast.Subscript) and ast.unparse(v) == "reporting_units.shape[0]" for _, _, v, _ in nt)
+    okn = bool(nt) and all(ast.unparse(v) in ("reporting_units.shape[0]", "len(reporting_units)") for _, _, v, _ in nt)
     ctx.ob("C14.R6.n-train", "ConformalElectionModel|n_train = number of reporting units", okn,
            nt[0][0].where(nt[0][3]) if nt else bf.where(),
            "n_train is set from reporting_units.shape[0] only" if okn else f"n_train written as {[ast.unparse(v) for _, _, v, _ in nt]}")
